@@ -337,22 +337,22 @@ func finish(spec *PropSpec, tier string, seed int, p *Prog, ids []string, res *R
 	}
 	nfuncs := len(p.Funcs)
 	cov := map[string]any{
-		"explanation": spec.Explanation + " NOT DECIDED: " + spec.NotDecided,
-		"obligations": len(res.Obs),
-		"discharged":  discharged,
-		"evaluations": len(res.Obs),
+		"explanation":         spec.Explanation + " NOT DECIDED: " + spec.NotDecided,
+		"obligations":         len(res.Obs),
+		"discharged":          discharged,
+		"evaluations":         len(res.Obs),
 		"distinct_nontrivial": distinctNonTrivial(res.Obs),
-		"rule": "one obligation per (rule, construct) instance found in the loaded program; non-trivial = its verdict needed a path search, dominance, value-flow, lockset or call-graph argument rather than a presence test; distinct = distinct rule+function+construct keys",
-		"samples":               sampleObs(res.Obs, 3),
-		"rules":                 ruleTable(ids, res),
-		"packages_analysed":     len(p.Target),
-		"function_bodies":       nfuncs,
-		"known_findings_hit":    len(res.Known),
-		"unlisted_violations":   len(res.Violations),
-		"exhaustive":            true,
-		"checker_cmd":           "bin/bpmnlint -property " + spec.ID + " -tier " + tier,
-		"trusted_base":          []string{"go/types", "golang.org/x/tools v0.29.0 go/packages", "vendored go/cfg with select modelling (checker/internal/xcfg)", "rule tables in checker/*.go"},
-		"build":                 map[string]string{"goos": goosName(p.GOOS), "tags": "none"},
+		"rule":                "one obligation per (rule, construct) instance found in the loaded program; non-trivial = its verdict needed a path search, dominance, value-flow, lockset or call-graph argument rather than a presence test; distinct = distinct rule+function+construct keys",
+		"samples":             sampleObs(res.Obs, 3),
+		"rules":               ruleTable(ids, res),
+		"packages_analysed":   len(p.Target),
+		"function_bodies":     nfuncs,
+		"known_findings_hit":  len(res.Known),
+		"unlisted_violations": len(res.Violations),
+		"exhaustive":          true,
+		"checker_cmd":         "bin/bpmnlint -property " + spec.ID + " -tier " + tier,
+		"trusted_base":        []string{"go/types", "golang.org/x/tools v0.29.0 go/packages", "vendored go/cfg with select modelling (checker/internal/xcfg)", "rule tables in checker/*.go"},
+		"build":               map[string]string{"goos": goosName(p.GOOS), "tags": "none"},
 	}
 	for k, v := range extra {
 		cov[k] = v
